@@ -95,6 +95,10 @@ struct Add {
     /// in the upper half, then or32 0; 2 = the same with add32 0; 3 = stored to the stack
     /// and loaded back; 4 = garbage upper half, then lsh 32 / arsh 32 (sign extension of the low half)
     src_shape: u8,
+    /// the addend is not a constant: the source register is loaded (ldxw / ldxdw) from this word of
+    /// the shared region right before the add, then or-ed with 1 (never 0) - under concurrency it is
+    /// whatever the word held at that moment
+    from_load: Option<(u16, u8)>,
     /// straight-line programs only: a register is computed right before this add and a conditional
     /// jump on it right after the add decides whether the next adds are executed
     guard: Option<Guard>,
@@ -323,6 +327,9 @@ fn body_insns(e: &ExecSpec) -> Vec<[u8; 8]> {
         let src_reg = if a.src_is_base { a.base_reg } else { a.src_reg };
         if a.src_is_base {
             // nothing to load: the addend is whatever the base register holds
+        } else if let Some((loff, lw)) = a.from_load {
+            v.push(ins(if lw == 4 { 0x61 } else { 0x79 }, a.src_reg, a.base_reg, (loff as i32 - a.bias) as i16, 0));
+            v.push(ins(0x47, a.src_reg, 0, 0, 1)); // or64 rS, 1
         } else if matches!(a.src_shape, 1 | 2 | 4) {
             // the upper half is garbage until the 32-bit operation / the shifts have run
             v.push(ins(0x18, a.src_reg, 0, 0, a.addend as u32 as i32));
@@ -494,6 +501,9 @@ impl Scenario {
                 aj["via_lddw"] = a.via_lddw.into();
                 aj["src_is_base"] = a.src_is_base.into();
                 aj["src_shape"] = a.src_shape.into();
+                if let Some((lo, lw)) = a.from_load {
+                    aj["from_load"] = json::array![lo, lw];
+                }
                 aj["aligned"] = aligned(a).into();
                 if let Some(g) = &a.guard {
                     let mut gj = JsonValue::new_object();
@@ -558,6 +568,7 @@ impl Scenario {
                     via_lddw: a["via_lddw"].as_bool()?,
                     src_is_base: a["src_is_base"].as_bool().unwrap_or(false),
                     src_shape: a["src_shape"].as_u8().unwrap_or(0),
+                    from_load: if a["from_load"].is_array() { Some((a["from_load"][0].as_u16()?, a["from_load"][1].as_u8()?)) } else { None },
                     guard: if a["guard"].is_object() {
                         let g = &a["guard"];
                         Some(Guard { pre: g["pre"].as_i32()?, alu: g["alu"].as_u8()?, alu_imm: g["alu_imm"].as_i32()?, jmp: g["jmp"].as_u8()?, jmp_imm: g["jmp_imm"].as_i32()?, skip: g["skip"].as_u8()? })
@@ -773,7 +784,17 @@ fn generate(rng: &mut Rng) -> Scenario {
                     _ => 0,
                 }
             };
-            adds.push(Add { width, off, addend, base_reg, src_reg, bias, via_lddw, src_is_base, src_shape, guard });
+            // sometimes the addend is data: loaded from one of the hot words right before the add
+            let from_load = if !src_is_base && src_shape == 0 && rng.chance(1, 8) {
+                let ls = *rng.pick(&slots);
+                let lw = if ls.width == 8 && rng.chance(1, 2) { 8u8 } else { 4u8 };
+                let loff = ls.off + if lw == 4 && rng.chance(1, 2) { 4 } else { 0 };
+                let d = loff as i32 - bias;
+                if (-32000..=32000).contains(&d) { Some((loff, lw)) } else { None }
+            } else {
+                None
+            };
+            adds.push(Add { width, off, addend, base_reg, src_reg, bias, via_lddw, src_is_base, src_shape, from_load, guard });
         }
         let tail_load = if rng.chance(1, 2) {
             let s = *rng.pick(&slots);
@@ -809,7 +830,7 @@ fn generate(rng: &mut Rng) -> Scenario {
         let allowed_split = if reach == Reach::Allowed && rng.chance(1, 2) { rng.range(1, 5) as u8 } else { 0 };
         let in_callee = engine != Engine::Cl && rng.chance(1, 5);
         let helper_first = rng.chance(1, 5);
-        let mut loop_step = if loop_n > 1 && adds.len() == 1 && !adds[0].src_is_base && aligned(&adds[0]) && rng.chance(1, 2) { rng.range(1, 1 << 20) as u32 } else { 0 };
+        let mut loop_step = if loop_n > 1 && adds.len() == 1 && !adds[0].src_is_base && adds[0].from_load.is_none() && aligned(&adds[0]) && rng.chance(1, 2) { rng.range(1, 1 << 20) as u32 } else { 0 };
         let loop_dec_first = loop_n > 1 && rng.chance(1, 2);
         if loop_step > 0 && (0..=loop_n as u64).any(|k| adds[0].addend.wrapping_add(k * loop_step as u64) & mask(adds[0].width) == 0) {
             loop_step = 0; // every add must change its word (a compare-exchange that changes nothing reads as a failed one)
@@ -1141,6 +1162,30 @@ fn is_write(e: &Event) -> bool {
     }
 }
 
+/// The addend each write of one execution should have carried, given everything that execution did
+/// to the shared page in order (`events`): the constant of the program, or - for an add whose source
+/// was loaded from the page - what the last load of that word returned, or-ed with 1.
+fn addends_in_effect(exp: &[Add], events: &[&Event]) -> Vec<Option<u64>> {
+    let mut out = Vec::new();
+    let mut k = 0usize;
+    let mut last_load: BTreeMap<(u16, u8), u64> = BTreeMap::new();
+    for e in events {
+        if e.class == EvClass::Load {
+            last_load.insert((e.off, e.width), e.before);
+        }
+        if is_write(e) {
+            if k < exp.len() {
+                out.push(match exp[k].from_load {
+                    None => Some(exp[k].addend),
+                    Some(key) => last_load.get(&key).map(|v| v | 1),
+                });
+            }
+            k += 1;
+        }
+    }
+    out
+}
+
 fn delta(e: &Event) -> u64 {
     e.after.wrapping_sub(e.before) & mask(e.width)
 }
@@ -1235,6 +1280,8 @@ fn check(sc: &Scenario, out: &RunOutput) -> Option<Violation> {
         if evs.len() != exp.len() {
             return Some(Violation { class: format!("xadd-count/{}", eng), detail: format!("execution #{} alone produced {} write events for {} atomic adds: {}", i, evs.len(), exp.len(), evs.iter().map(|e| ev_desc(e)).collect::<Vec<_>>().join(", ")) });
         }
+        let all: Vec<&Event> = out.solo[i].events.iter().collect();
+        let in_effect = addends_in_effect(&exp, &all);
         for (j, (e, a)) in evs.iter().zip(exp.iter()).enumerate() {
             if e.stray >= 0 {
                 return Some(Violation { class: format!("neighbour-clobbered/{}", eng), detail: format!("execution #{} add #{} ({}-bit at offset {}): byte at offset {} outside the word changed ({})", i, j, a.width * 8, a.off, e.stray, ev_desc(e)) });
@@ -1242,7 +1289,10 @@ fn check(sc: &Scenario, out: &RunOutput) -> Option<Violation> {
             if e.class != EvClass::Unclassified && (e.off != a.off || e.width != a.width) {
                 return Some(Violation { class: format!("wrong-width-or-offset/{}", eng), detail: format!("execution #{} add #{}: program says {}-bit at offset {}, the machine did {}", i, j, a.width * 8, a.off, ev_desc(e)) });
             }
-            let want = a.addend & mask(a.width);
+            let want = match in_effect.get(j).copied().flatten() {
+                Some(v) => v & mask(a.width),
+                None => continue, // the load this addend comes from was not seen: judged by the counts above
+            };
             let w = if e.class == EvClass::Unclassified { a.width } else { e.width };
             let got = e.after.wrapping_sub(e.before) & mask(w);
             if got != want {
@@ -1266,6 +1316,9 @@ fn check(sc: &Scenario, out: &RunOutput) -> Option<Violation> {
         }
         let solo: Vec<&Event> = out.solo[i].events.iter().filter(|e| is_write(e)).collect();
         let conc: Vec<&Event> = out.conc.events.iter().filter(|e| e.thread as usize == i && is_write(e)).collect();
+        let (exp_i, _) = expected_writes(spec);
+        let all_c: Vec<&Event> = out.conc.events.iter().filter(|e| e.thread as usize == i).collect();
+        let in_effect_c = addends_in_effect(&exp_i, &all_c);
         if solo.len() != conc.len() {
             return Some(Violation { class: format!("xadd-count/{}", eng), detail: format!("execution #{}: {} write events alone, {} concurrently", i, solo.len(), conc.len()) });
         }
@@ -1276,15 +1329,25 @@ fn check(sc: &Scenario, out: &RunOutput) -> Option<Violation> {
             if s.off != c.off || s.width != c.width {
                 return Some(Violation { class: format!("wrong-width-or-offset/{}", eng), detail: format!("execution #{} write #{}: alone {}, concurrently {}", i, j, ev_desc(s), ev_desc(c)) });
             }
-            if delta(s) != delta(c) {
+            let data_dependent = exp_i.get(j).map(|a| a.from_load.is_some()).unwrap_or(false);
+            let delta_wanted = if data_dependent {
+                match in_effect_c.get(j).copied().flatten() {
+                    Some(v) => v & mask(c.width),
+                    None => delta(c),
+                }
+            } else {
+                delta(s)
+            };
+            if delta_wanted != delta(c) {
                 return Some(Violation {
                     class: format!("lost-update/{}/{}", eng, c.width as u32 * 8),
                     detail: format!(
-                        "execution #{} write #{} at offset {}: alone it changes the word by {:#x}, in this schedule by {:#x} ({}){}",
+                        "execution #{} write #{} at offset {}: {} {:#x}, in this schedule the word changes by {:#x} ({}){}",
                         i,
                         j,
                         c.off,
-                        delta(s),
+                        if data_dependent { "its source register was loaded from the page right before and holds" } else { "alone it changes the word by" },
+                        delta_wanted,
                         delta(c),
                         ev_desc(c),
                         if c.split { format!(": the read-modify-write is not LOCKed; it read {:#x}, another execution then changed the word to {:#x}, and it stored its stale sum", c.stale, c.before) } else { String::new() }
@@ -1300,14 +1363,17 @@ fn check(sc: &Scenario, out: &RunOutput) -> Option<Violation> {
             continue;
         }
         let (exp, _) = expected_writes(&sc.execs[i]);
-        for a in exp {
+        let all_c: Vec<&Event> = out.conc.events.iter().filter(|e| e.thread as usize == i).collect();
+        let in_effect_c = addends_in_effect(&exp, &all_c);
+        for (j, a) in exp.iter().enumerate() {
             let off = a.off as usize;
             let w = a.width as usize;
             let mut cur = 0u64;
             for k in (0..w).rev() {
                 cur = (cur << 8) | want[off + k] as u64;
             }
-            let nv = cur.wrapping_add(a.addend) & mask(a.width);
+            let addend = in_effect_c.get(j).copied().flatten().unwrap_or(a.addend);
+            let nv = cur.wrapping_add(addend) & mask(a.width);
             for k in 0..w {
                 want[off + k] = (nv >> (8 * k)) as u8;
             }
@@ -1473,6 +1539,9 @@ fn summarise(sc: &Scenario, out: &RunOutput, st: &mut Stats) -> (u64, u64, bool)
             st.inc(&format!("allowed_memory_registered_as/{}", ["", "whole_then_nested", "nested_then_whole", "adjacent_halves", "whole_twice", "overlapping"][spec.allowed_split as usize]), 1);
         }
         for a in &spec.adds {
+            if a.from_load.is_some() {
+                st.inc("adds_whose_source_was_loaded_from_the_shared_page", 1);
+            }
             if a.src_shape != 0 {
                 st.inc(&format!("source_register_shaped/{}", ["", "or32", "add32", "stack_round_trip", "lsh_arsh"][a.src_shape as usize]), 1);
             }
@@ -1626,6 +1695,7 @@ fn minimise(sc: &Scenario, class: &str) -> (Scenario, usize) {
             cand.execs[t].adds[j].via_lddw = false;
             cand.execs[t].adds[j].src_is_base = false;
             cand.execs[t].adds[j].src_shape = 0;
+            cand.execs[t].adds[j].from_load = None;
             evals += 1;
             let (v, _) = eval(&cand);
             if same_class(&v, class) {
